@@ -86,7 +86,7 @@ extern "C" __attribute__((noinline)) void h_reload() {
   auto& storage = *new adaptors::InmemStorageImpl();
   { auto wb = storage.generateWriteBatch(); adaptors::BlockBatchImpl batch(*wb); saveTrees(t, batch); wb->writeBatch(); }
   // ---- optional continuation and an incremental second save
-  uint32_t cont = verif_choice(0, 4);
+  uint32_t cont = verif_choice(0, 5);
   if (cont == 1) { ValidationState s; t.setState(altHash((uint8_t)verif_choice(2, 5)), s); }
   if (cont == 2) {   // a new block whose ATV endorses the bootstrap block exactly `settlement interval` (3) blocks below it: the last timely position
     addAltHeader(w, 6, 3); PopData pd; pd.atvs.push_back(makeATV(w, 1, 1, 2, 5)); t.acceptBlock(altHash(6), pd); ValidationState s; bool ok6 = t.setState(altHash(6), s);
@@ -94,6 +94,8 @@ extern "C" __attribute__((noinline)) void h_reload() {
   }
   if (cont == 3) { auto* x = t.getBlockIndex(altHash(3)); t.invalidateSubtree(*x, BLOCK_FAILED_BLOCK); if (verif_cbool()) t.revalidateSubtree(*x, BLOCK_FAILED_BLOCK); }
   if (cont == 4) { PopData pd; t.acceptBlock(altHash(7), pd); if (verif_cbool()) { ValidationState s; t.setState(altHash(8), s); } }   // the body of an already saved header arrives and connects it and its waiting child
+  if (cont == 5) {   // an already saved subtree is removed: its deleted records must reach the storage with the next incremental save
+    uint8_t r = (uint8_t)verif_choice(4, 5); auto* ri = t.getBlockIndex(altHash(r)); if (ri && !t.getBestChain().contains(ri)) { t.removeSubtree(*ri); verif_cover(5); } }
   if (cont) { auto wb = storage.generateWriteBatch(); adaptors::BlockBatchImpl batch(*wb); saveTrees(t, batch); wb->writeBatch(); verif_cover(2); }
   // every index is clean after a save
   for (auto* b : t.getBlocks()) verif_check(!b->isDirty(), 1);
